@@ -201,8 +201,8 @@ func genC16(r *Run) {
 		r.Add(eV6Inner, cw)
 		r.Add(eV6Decap, cw)
 		r.Add(eV6DecapIndex, cw, []byte{byte(10 + r.Pick(-2, -1, 0, 1, depth-1, depth, depth+1))})
-		r.Add(eV6Encap, cw, []byte{byte(r.Pick(12, 13, 1, 7))}, r.Addr16(), r.Addr16())
-		r.Add(eV6Encap, iw, []byte{12}, r.Addr16(), r.Addr16())
+		r.Add(eV6Encap, cw, []byte{byte(r.Pick(12, 13, 1, 7))}, r.AddrAny(), r.AddrAny())
+		r.Add(eV6Encap, iw, []byte{12}, r.AddrAny(), r.AddrAny())
 		reply, rw := r.genInner(7)
 		r.Add(eV6RelayRepl, cw, rw)
 		r.Add(eV6Advertise, iw)
@@ -221,6 +221,27 @@ func genC16(r *Run) {
 			}
 			if d, err := dhcpv6.DecapsulateRelay(enc); err != nil || dumpLine(dumpMsg(d)) != dumpLine(dumpMsg(chain)) {
 				r.Fail("decap-encap", trunc(cs, 2000), "")
+			}
+		}
+		// (1b) the caller's link / peer address in whatever form a net.IP takes (16 octets, 4 octets, nil, other):
+		// on the wire it is the address's 16-octet form (the unspecified address if it has none)
+		{
+			la, pa := r.AddrAny(), r.AddrAny()
+			if e2, err := dhcpv6.EncapsulateRelay(inner, dhcpv6.MessageTypeRelayForward, net.IP(la), net.IP(pa)); err == nil {
+				if back, err := dhcpv6.FromBytes(e2.ToBytes()); err != nil {
+					r.Fail("encapsulated-not-decodable", fmt.Sprintf("link %x peer %x", la, pa), err.Error())
+				} else if rb, ok := back.(*dhcpv6.RelayMessage); ok {
+					want := func(a []byte) net.IP {
+						if v := net.IP(a).To16(); v != nil {
+							return v
+						}
+						return net.IPv6unspecified
+					}
+					if !rb.LinkAddr.Equal(want(la)) || !rb.PeerAddr.Equal(want(pa)) {
+						r.Fail("relay-address-on-the-wire", fmt.Sprintf("EncapsulateRelay(link %x, peer %x)", la, pa),
+							fmt.Sprintf("after the wire: link %s peer %s, want %s / %s", rb.LinkAddr, rb.PeerAddr, want(la), want(pa)))
+					}
+				}
 			}
 		}
 		// (2) inner message at any depth, also after the wire
